@@ -4,6 +4,8 @@
 //! `probe backoff kind=exp|rand|fixed|retry_policy|policy_exp|policy_rand|policy_fixed|policy_none|…
 //!        initial_ns=<n> mult_num=<p> mult_den=<q> cap_ns=<n>|none rf_pct=<0..100> attempt=<a>`
 //! (keys may also be given once in the case header; keys of the operation win).
+//! `rf_num=<n> rf_den=<d>`: the randomization factor handed to the constructor is the `f64` `n/d` — any rational, also
+//! above 1 (the constructor clamps it; `n/0` with `n > 0` is `+inf`); without `rf_num=` it is `rf_pct/100`.
 //!
 //! `chain=<s1,s2,…>` (header or operation) is the builder chain itself, applied left to right to
 //! `ExponentialBackoff::new(initial)` / `ExponentialRandomBackoff::new(initial, rf)` through the public
@@ -114,7 +116,10 @@ fn via<T: Clone>(cl: bool, x: T) -> T {
 fn compute(kv: &Kv) -> Option<Duration> {
     let initial = dur(u128_of(kv, "initial_ns", 0));
     let cap = kv.get("cap_ns").and_then(|v| v.parse::<u128>().ok()).map(dur);
-    let rf = kv.u64("rf_pct", 50) as f64 / 100.0;
+    let rf = match kv.get("rf_num") {
+        Some(_) => kv.u64("rf_num", 1) as f64 / kv.u64("rf_den", 2) as f64,
+        None => kv.u64("rf_pct", 50) as f64 / 100.0,
+    };
     let attempt = kv.get("attempt").and_then(|v| v.parse::<usize>().ok()).unwrap_or(0);
     let cl = kv.u64("clone", 0) != 0;
     let chain = chain_of(kv);
